@@ -428,12 +428,22 @@ class World:
         gw.tasks.queue = _CauseDeque(world)
         if hasattr(gw.tasks, "_stop_event"):
             gw.tasks._stop_event = _PumpStopEvent()
-        if self.persistence:
-            if self.flavour != "sync":
-                # sequential async worlds only load (start_persistence proper needs a loop: see vloop checks)
-                gw.tasks.persistence.safe_load_sensors()
-            else:
-                gw.start_persistence()
+        self.pstarted = False
+        if self.persistence and not self.cfg.get("defer_start"):
+            self._start_persistence()
+
+    def _start_persistence(self):
+        """start_persistence() of the current gateway object (event 'startp' when the configuration defers it: the
+        application may let traffic in before it loads the file)."""
+        if self.pstarted:
+            return
+        self.pstarted = True
+        gw = self.gw
+        if self.flavour != "sync":
+            # sequential async worlds only load (start_persistence proper needs a loop: see vloop checks)
+            gw.tasks.persistence.safe_load_sensors()
+        else:
+            gw.start_persistence()
 
     # -- stepping ----------------------------------------------------------------------------
 
@@ -546,6 +556,8 @@ class World:
                     fs.uninstall()
             elif kind == "restart":
                 self.restart()
+            elif kind == "startp":
+                self._start_persistence()
             elif kind == "start":
                 res = self.gw.start()
                 if hasattr(res, "send"):
@@ -644,6 +656,7 @@ class World:
             ("timers", tuple(t.verif_state() for t in self.timers if t.started and not t.cancelled and not t.fired)),
             ("files", tuple((n, canon.digest(b).hex()) for n, b in self.files())),
             ("clock", self.epoch, self.utc_offset),
+            ("pstarted", getattr(self, "pstarted", None)),
             ("dead", repr(self.dead)),
             ("extra", extra),
         )
